@@ -49,7 +49,10 @@ def initial_trees():
                             ".gitignore": "*.log\nbuild/\n", "LICENSES/MIT.txt": "mit\n", "@gitparent": ["proj/src/a.py", "proj/src/sub/b.c", "proj/.gitignore", "proj/LICENSES/MIT.txt"]}
     t["symlinks"] = {"src/a.py": H + "a = 1\n", "src/sub/b.c": "int b;\n", "LICENSES/MIT.txt": "mit\n",
                      "link-in.py": {"symlink": "src/a.py"}, "link-out.py": {"symlink": "../outside/secret.txt"}, "link-dir": {"symlink": "../outside/dir"},
-                     "src/link-up": {"symlink": "../../outside"}, "dangling": {"symlink": "nowhere"}}
+                     "src/link-up": {"symlink": "../../outside"}, "dangling": {"symlink": "nowhere"},
+                     # .license siblings that are symbolic links: to a file outside, to a not yet existing file outside, to a shared file inside
+                     "src/sub/b.c.license": {"symlink": "../../../outside/secret.txt"}, "img.png": {"hex": PNG_HEX}, "img.png.license": {"symlink": "../outside/created-through-link.txt"},
+                     "src/c.py": "c = 1\n", "src/c.py.license": {"symlink": "../shared.license"}, "shared.license": "SPDX-FileCopyrightText: 2001 Shared\nSPDX-License-Identifier: MIT\n"}
     t["dep5"] = {".reuse/dep5": DEP5, "src/a.py": "a = 1\n", "src/sub/b.c": "int b;\n", "LICENSES/MIT.txt": "mit\n", ".reuse/templates/x.jinja2": "{{ x }}\n"}
     t["readonly"] = {"src/a.py": {"text": H + "a = 1\n", "mode": 0o444}, "src/sub/b.c": {"text": "int b;\n", "mode": 0o444}, "src/c.py": H.replace("MIT", "0BSD") + "c = 1\n",
                      "LICENSES/README": {"text": "licences live here\n", "mode": 0o444}, "LICENSE": "top-level licence\n", "x.py.license": "SPDX-License-Identifier: MIT\n"}
